@@ -184,6 +184,11 @@ def impl_call(case):
     area_cm2 = area_v * 1e4 if case['area_unit'] == 'm2' else area_v
     thr_v = None if case['threshold'] is None else O.fl(case['threshold'])
     thr = thr_v if (thr_v is None or not case.get('threshold_as_quantity')) else thr_v * u.dimensionless_unscaled
+    if thr_v is not None and case.get('threshold_scale'):
+        # the same fraction spelled in a scaled dimensionless unit (1/8, 4, 1/1024: the conversion back is exact)
+        sc = O.fl(case['threshold_scale'])
+        thr = u.Quantity(thr_v / sc, u.Unit(sc))
+        assert float(thr.to(u.dimensionless_unscaled).value) == thr_v
     wl = wave_arg(case, 'main')
     run_history(case, bp, thr, area)
     out = {'ok': call_all(bp, wl, thr, area, case.get('order'))}
@@ -643,6 +648,8 @@ def gen_case1(rng, K, nmax_t, nmax_g):
     else:
         c['threshold'] = q(dyf(rng, 0, 2, 4) / rng.choice([1, 2, 4, 16]) + F(2 * rng.randint(0, 7) + 1, 1024))
     c['threshold_as_quantity'] = rng.random() < 0.3
+    if c['threshold'] is not None and c['threshold_as_quantity'] and rng.random() < 0.5:
+        c['threshold_scale'] = rng.choice(['1/8', '4', '1/1024'])
     # with a threshold within an ulp-scale distance of a (rounded) sample, scaled/reversed masks may differ
     c['_thr_fragile'] = False
     # area
